@@ -285,6 +285,13 @@ func swapInGapsNs(seq []byte) []byte {
 	}
 
 	for i, L := range seq {
+		if firstLetter {
+			// no aligned base anywhere: every unmapped position is external
+			if L == '*' {
+				seq[i] = '-'
+			}
+			continue
+		}
 		if i < firstLetterIndx {
 			if L == '*' {
 				seq[i] = '-'
